@@ -65,10 +65,27 @@ def gen_recipe(rng, i):
     for _ in range(nops):
         kind = rng.choice(['set_radius', 'set_conic', 'set_thickness', 'set_index', 'set_asphere_coeff', 'scale',
                            'image_solve', 'pickup_radius', 'pickup_conic', 'pickup_thickness', 'solve', 'update',
-                           'optimise', 'stale_pickup'])
+                           'optimise', 'stale_pickup', 'remove_surface', 'add_surface', 'conic_on_flat'])
         if kind == 'set_radius':
             edits.append(['set_radius', math.inf if rng.random() < 0.15 else rng.uniform(30, 200) * rng.choice([-1, 1]),
                           rng.randrange(1, n + 1)])
+        elif kind == 'conic_on_flat':
+            k = rng.randrange(1, n + 1)
+            edits.append(['set_conic', rng.uniform(-1.5, -0.2), k])
+            edits.append(['set_radius', math.inf, k])
+        elif kind == 'remove_surface' and n >= 2:
+            stop = [j + 1 for j, s in enumerate(spec['surfaces']) if s.get('is_stop')]
+            cand = [k for k in range(1, n + 1) if k not in stop] if not any(e[0] in ('remove_surface', 'add_surface') for e in edits) \
+                else list(range(1, n + 1))
+            edits.append(['remove_surface', rng.choice(cand)])
+            n -= 1
+            std, even = [], []
+        elif kind == 'add_surface':
+            k = rng.randrange(1, n + 2)
+            edits.append(['add_surface', k, rng.choice([math.inf, rng.uniform(30, 150) * rng.choice([-1, 1])]),
+                          rng.uniform(1.0, 6.0), rng.choice(['air', ['ideal', rng.uniform(1.4, 1.8), 0.0]])])
+            n += 1
+            std, even = [], []
         elif kind == 'set_conic' and std:
             edits.append(['set_conic', rng.uniform(-1.5, 0.5), rng.choice(std)])
         elif kind == 'set_thickness' and n >= 2:
@@ -126,6 +143,12 @@ def apply_op(o, op):
         o.solves.add('marginal_ray_height', op[1], op[2])
     elif k == 'update':
         o.update()
+    elif k == 'remove_surface':
+        o.surface_group.remove_surface(op[1])
+    elif k == 'add_surface':
+        from optiland.materials import IdealMaterial
+        m = op[4] if isinstance(op[4], str) else IdealMaterial(n=op[4][1], k=op[4][2])
+        o.add_surface(index=op[1], radius=op[2], thickness=op[3], material=m)
     elif k == 'optimise':
         from optiland import optimization
         prob = optimization.OptimizationProblem()
@@ -236,7 +259,10 @@ def x_geom(g, issues, path):
     t = type(g).__name__
     cs = x_cs(g.cs, issues, path + '.cs')
     if t == 'Plane':
-        return ('GPlane', cs)
+        # a conic given to the flat surface lives in the attribute k; every reader uses getattr(.., 'k', 0)
+        k = getattr(g, 'k', 0)
+        k = _num(k, issues, path + '.k')
+        return ('GPlane', cs, k if k != 0.0 else None)
     R = _num(g.radius, issues, path + '.radius')
     k = _num(g.k, issues, path + '.k')
     if t == 'StandardGeometry':
@@ -381,7 +407,7 @@ def c_state(x):
     if t == 'CS':
         return '(CS ' + ' '.join(cfl(v) for v in x[1:7]) + ' ' + copt(c_state, x[7]) + ')'
     if t == 'GPlane':
-        return f'(GPlane {c_state(x[1])})'
+        return f'(GPlane {c_state(x[1])} {copt(cfl, x[2])})'
     if t == 'GStd':
         return f'(GStd {c_state(x[1])} {cfl(x[2])} {cfl(x[3])})'
     if t == 'GEven':
@@ -479,7 +505,7 @@ def c_cat(cat):
 
 def c_impl(flags):
     return ('(mkImpl ' + ' '.join(cbool(flags[k]) for k in ('fresnel_nested', 'pol_codec', 'image_from_dict',
-                                                              'aperture_none_ok', 'pickups_applied_on_load')) + ')')
+                                                              'aperture_none_ok', 'pickups_applied_on_load', 'plane_conic')) + ')')
 
 
 # --------------------------------------------------------------------------------------------------
@@ -564,6 +590,7 @@ def oracle(o, origin=None):
         return [{'stage': 'to_dict', 'site': 'to_dict-raises', 'detail': f'{type(e).__name__}: {e}'[:200]}]
     beh0 = None
     text = None
+    snapshot = copy.deepcopy(d)
     try:
         text = json.dumps(d)
     except Exception as e:   # noqa
@@ -594,6 +621,15 @@ def oracle(o, origin=None):
         src = json.loads(text) if how == 'file' else d
         try:
             o2 = Optic.from_dict(src)
+            if how == 'dict':
+                # from_dict must not modify its argument, and a second load of the same dictionary gives the same lens
+                if canon_dict(d) != canon_dict(snapshot):
+                    v.append({'stage': 'argument(dict)', 'site': 'from_dict-modifies-argument',
+                              'detail': first_diff(canon_dict(snapshot), canon_dict(d), 'dict')})
+                o2b = Optic.from_dict(src)
+                if canon(extract(o2b)[0]) != canon(extract(o2)[0]):
+                    v.append({'stage': 'second-load(dict)', 'site': 'second-load-differs',
+                              'detail': first_diff(canon(extract(o2)[0]), canon(extract(o2b)[0]))})
         except Exception as e:   # noqa
             site = 'from_dict-raises'
             if any(s.get('type') == 'ImageSurface' for s in d['surface_group']['surfaces']) and isinstance(e, TypeError):
@@ -610,7 +646,9 @@ def oracle(o, origin=None):
             continue
         if canon(st2) != canon(st0):
             site = 'state-differs'
-            if len(o.pickups) > 0:
+            if canon(drop_plane_conic(st0)) == canon(st2):
+                site = 'plane-conic-dropped'
+            elif len(o.pickups) > 0:
                 # is the difference exactly "the pickups were applied once more"?
                 oa = copy.deepcopy(o)
                 try:
@@ -638,7 +676,130 @@ def oracle(o, origin=None):
         if beh2 != beh0:
             which = [k for k in beh0 if beh0[k] != beh2[k]]
             v.append({'stage': f'behaviour({how})', 'site': 'behaviour-differs', 'detail': ','.join(which)})
+            continue
+        # the same edits applied to the original and to the reloaded lens give the same lens (no state is lost
+        # that a later edit would read).  add_surface is left out: the factory's pending thickness is not saved.
+        try:
+            oc = copy.deepcopy(o)
+        except Exception:   # noqa
+            oc = None
+        if oc is not None:
+            ra, rb = post_edits(oc), post_edits(o2)
+            if ra != rb:
+                v.append({'stage': f'post-reload-edits({how})', 'site': 'post-reload-edit-differs',
+                          'detail': first_diff(ra, rb)})
+        # independence: changing the reloaded lens (after the edits above) and the dictionary it came from
+        # must leave the original lens as it was
+        if how == 'dict':
+            scribble(o2, d)
+            try:
+                st1 = extract(o)[0]
+                d1 = o.to_dict()
+                if canon(st1) != canon(st0) or canon_dict(d1) != canon_dict(snapshot):
+                    det = first_diff(canon(st0), canon(st1)) or first_diff(canon_dict(snapshot), canon_dict(d1), 'dict')
+                    site = 'evenasphere-coeff-aliasing' if det and 'GEven' in det else 'aliasing'
+                    v.append({'stage': 'independence(dict)', 'site': site, 'detail': det})
+                elif behaviour(o) != beh0:
+                    v.append({'stage': 'independence(dict)', 'site': 'aliasing', 'detail': 'behaviour of the original changed'})
+            except Exception as e:   # noqa
+                v.append({'stage': 'independence(dict)', 'site': 'aliasing', 'detail': f'{type(e).__name__}: {e}'[:120]})
     return v
+
+
+def canon_dict(d):
+    """comparable form of a to_dict result (live objects by class name and attributes)"""
+    if isinstance(d, dict):
+        return ('dict',) + tuple((str(k), canon_dict(v)) for k, v in d.items())
+    if isinstance(d, (list, tuple)):
+        return ('list',) + tuple(canon_dict(x) for x in d)
+    if isinstance(d, np.ndarray):
+        return ('ndarray',) + tuple(canon_dict(x) for x in d.tolist())
+    if isinstance(d, (bool, np.bool_)):
+        return bool(d)
+    if isinstance(d, (float, np.floating)):
+        return canon(float(d))
+    if isinstance(d, (int, np.integer)):
+        return int(d)
+    if d is None or isinstance(d, str):
+        return d
+    return ('obj', type(d).__name__, canon_dict({k: x for k, x in vars(d).items() if isinstance(x, (int, float, str, bool, type(None)))}))
+
+
+def drop_plane_conic(x):
+    if isinstance(x, tuple):
+        if x and x[0] == 'GPlane':
+            return ('GPlane', x[1], None)
+        return tuple(drop_plane_conic(y) for y in x)
+    if isinstance(x, list):
+        return [drop_plane_conic(y) for y in x]
+    return x
+
+
+def post_edits(o):
+    """a fixed edit history applied after loading; returns the comparable state after each step"""
+    out = []
+    n = len(o.surface_group.surfaces)
+    ops = []
+    for k in range(1, n - 1):
+        g = o.surface_group.surfaces[k].geometry
+        if type(g).__name__ == 'Plane':
+            ops.append(('set_radius', 77.0, k))
+    ops = ops[:3]
+    if n >= 4:
+        ops.append(('set_thickness', 3.25, 1))
+    ops += [('scale', 1.5), ('update',)]
+    for op in ops:
+        try:
+            apply_op(o, list(op))
+            out.append(canon(extract(o)[0]))
+        except Exception as e:   # noqa
+            out.append('raised ' + type(e).__name__)
+    return tuple(out)
+
+
+def scribble(o2, d):
+    """overwrite, in place, every mutable container of the reloaded lens and of the dictionary"""
+    for s in o2.surface_group.surfaces:
+        c = getattr(s.geometry, 'c', None)
+        if isinstance(c, list):
+            for i in range(len(c)):
+                c[i] = c[i] + 1.0
+            c.append(123.0)
+        elif isinstance(c, np.ndarray):
+            c += 1.0
+        for m in (s.material_pre, s.material_post):
+            if type(m).__name__ == 'IdealMaterial':
+                m.index = m.index + 0.25
+        s.geometry.cs.x = s.geometry.cs.x + 1.0
+        if s.aperture is not None:
+            s.aperture.r_max = s.aperture.r_max * 2
+    for f in o2.fields.fields:
+        f.y = f.y + 1.0
+    for w in o2.wavelengths.wavelengths:
+        w.is_primary = not w.is_primary
+    for p in o2.pickups.pickups:
+        p.scale = p.scale + 1.0
+
+    def walk(x):
+        if isinstance(x, dict):
+            for k in list(x):
+                if isinstance(x[k], (dict, list, np.ndarray)):
+                    walk(x[k])
+                elif isinstance(x[k], float):
+                    x[k] = x[k] + 1.0
+                elif isinstance(x[k], str):
+                    x[k] = x[k] + '?'
+            x['scribble'] = 1
+        elif isinstance(x, list):
+            for i in range(len(x)):
+                if isinstance(x[i], (dict, list, np.ndarray)):
+                    walk(x[i])
+                elif isinstance(x[i], float):
+                    x[i] = x[i] + 1.0
+            x.append(0.5)
+        elif isinstance(x, np.ndarray):
+            x += 1.0
+    walk(d)
 
 
 def z_is_array(o):
